@@ -121,6 +121,7 @@ const (
 	siteLateMeta  site = "late-meta"    // declaration after some hundred bytes of markup
 	siteHdrUnk    site = "header-unknown" // unsupported charset label in the header (+ meta in the body)
 	siteHdrUTF8   site = "header-utf8"  // header says utf-8 (body may declare something else)
+	siteTextFirst site = "text-then-meta" // non-ASCII text (a title) BEFORE the meta declaration
 )
 
 type doc struct {
@@ -218,6 +219,10 @@ func makeDoc(r *hk.Rand, s site, cs *charsetSpec, target int) (*doc, bool) {
 		d.CT = "text/html"
 		head = "<html><head><!-- " + strings.Repeat("padding ", 20+r.Intn(60)) + "--><title>late</title>" + metaTag(siteMeta, cs.Name, r) + "</head><body>"
 		d.Declared = []string{cs.Name}
+	case siteTextFirst:
+		d.CT = "text/html"
+		head = "<html><head><title>\x00TITLE\x00</title>" + metaTag(siteMeta, cs.Name, r) + "</head><body>"
+		d.Declared = []string{cs.Name}
 	case siteBOM:
 		d.CT = base
 		head = "<html><body>"
@@ -258,6 +263,17 @@ func makeDoc(r *hk.Rand, s site, cs *charsetSpec, target int) (*doc, bool) {
 		}
 	} else {
 		hb = []byte(head)
+		if s == siteTextFirst {
+			rs := []rune(text)
+			if len(rs) > 10 {
+				rs = rs[:10]
+			}
+			title, ok := cs.encodeText(string(rs))
+			if !ok {
+				return nil, false
+			}
+			hb = bytes.Replace(hb, []byte("\x00TITLE\x00"), title, 1)
+		}
 		if s == siteBOM || (cs.UTF8 && r.Chance(40)) {
 			if cs.UTF8 {
 				hb = append([]byte{0xef, 0xbb, 0xbf}, hb...)
@@ -316,8 +332,8 @@ func randomSplit(r *hk.Rand, body []byte, k int) [][]byte {
 var callerBufs = []int{1, 2, 3, 7, 512, 4096}
 
 // beyond x/text's 4096-byte internal buffers (only used where the body is long enough to matter)
-var bigBufs = []int{8192, 16384}
+var bigBufs = []int{8192, 16384, 32768}
 
-var sizePatterns = [][]int{{1}, {2}, {3}, {7}, {512}, {4096}, {512, 1, 3}, {7, 4096}, {2, 511}, {513}, {1024}, {3, 512, 4096}, {8192}, {16384, 512}}
+var sizePatterns = [][]int{{1}, {2}, {3}, {7}, {512}, {4096}, {512, 1, 3}, {7, 4096}, {2, 511}, {513}, {1024}, {3, 512, 4096}, {8192}, {16384, 512}, {32768}}
 
 var bodyTargets = []int{0, 1, 2, 3, 25, 60, 120, 300, 509, 510, 511, 512, 513, 514, 600, 1023, 1024, 1025, 1500, 4095, 4096, 4097, 6000, 9000}
